@@ -153,7 +153,8 @@ def _cases(draw, tier):
         empty = {'name': 'EMPTYSYM', 'src': draw(st.sampled_from(['config', 'cli', 'define']))}
     if empty:
         empty['style'] = draw(st.integers(0, 3))
-    return {'layer': 'cli', 'incpad': draw(st.sampled_from([0, 0, 3, 9, 30])), 'empty': empty, 'syms': syms, 'order': names, 'srcs': srcs, 'dup': dup, 'looks': looks, 'shadow': shadow,
+    defsep = draw(st.sampled_from([' ', ' ', ' ', '  ', '\t', ' \t ', '    ']))     # blanks between the name and its replacement text
+    return {'layer': 'cli', 'defsep': defsep, 'incpad': draw(st.sampled_from([0, 0, 3, 9, 30])), 'empty': empty, 'syms': syms, 'order': names, 'srcs': srcs, 'dup': dup, 'looks': looks, 'shadow': shadow,
             'lines': lines, 'cycle': cyc}
 
 
@@ -289,7 +290,7 @@ def execute(case, ctx):
             defined[n] = syms[n]
     for kind, arg in case['lines']:
         if kind == 'define':
-            src.append(f'#define {arg} {syms[arg]}')
+            src.append(f'#define {arg}' + case.get('defsep', ' ') + syms[arg] + case.get('deftrail', ''))
             if dup and dup == [arg, 'define'] or dup == (arg, 'define'):
                 src.append(f'#define {arg} 1')
                 expect_reject = True
